@@ -69,6 +69,18 @@ CLAIMED.update({
              technique='Coq proof over regenerated wrapper records, macro values and struct probes; paired legacy/current differential runs',
              ref='DESIGN.md section 4 C12'),
 })
+CLAIMED.update({
+ 'C05': dict(text='Theorem C05_history (refinement, induction over the operation list): for every format, every finite sequence of well-formed operations '
+                  '(current init, by-identifier/dedicated writer of any field, deprecated set/init) on any buffer of bytes >= header length, the model runs to '
+                  'completion and its final buffer IS the buffer of the abstract record semantics (RecordTheory.hrun). Corollaries: C05_last_write (every field '
+                  'reads, through every getter, as the last value written mod width / canonical content after a later init / initial content), C05_encoding '
+                  '(final bytes = reference encoding of exactly those values over the residual bits), C05_commute, C05_idempotent, C05_overwrite, '
+                  'C05_fields_disjoint, C05_local (interleaved histories over several buffers: buffer k depends only on its own sub-history).',
+             note=FIELD_NOTE + ' Absence of hidden state in the C code is tied by running every generated history inside one process over several buffers '
+                  'and comparing after every step, and by C16 (static-storage inventory).',
+             technique='Coq proof (refinement to an abstract record by induction over histories, on top of the C01/C02/C04/C12 theorems); differential runs of generated histories with shrinking',
+             ref='DESIGN.md section 4 C05'),
+})
 ALL = ['C%02d' % i for i in range(1, 21)]
 def main():
     checks = []
